@@ -211,8 +211,10 @@ Definition ratio_above (b : borrow_in) : outcome bool :=
    auctionsV2, AmountIn of the collateral denom), BurnCoins(pool, AmountIn of the cToken),
    CreateLockedVault with AuctionType = IsDutchActivated: a Dutch auction needs active prices of
    both assets (they are: the ratio was computed), an English one IsEnglishActivated *)
+Definition borrow_funds_ok (b : borrow_in) : bool :=
+  (b_amt_in b <=? b_pool_bal b) && (b_amt_in b <=? b_cpool_bal b).
 Definition borrow_start_ok (b : borrow_in) : bool :=
-  (b_amt_in b <=? b_pool_bal b) && (b_amt_in b <=? b_cpool_bal b) && (b_dutch b || b_english b).
+  borrow_funds_ok b && (b_dutch b || b_english b).
 
 Definition seize_rule_borrow_of (g : gen) (b : borrow_in) (above_ : outcome bool) : verdict :=
   if negb (b_found b) then (match g with GB1 => VKeep | _ => VErr end)
@@ -545,6 +547,21 @@ Definition borrow_unsafe (b : borrow_in) : bool :=
 (* safety: every seized position was on the unsafe side at the inputs the step read *)
 Definition holds_C09_safe (seized : list vault_in) : bool := forallb vault_unsafe seized.
 Definition holds_C09_safe_borrow (seized : list borrow_in) : bool := forallb borrow_unsafe seized.
+
+(* the property's liveness hypotheses for a borrow at one block: the position exists and is open,
+   the kill switch is off, liquidation is enabled for the app (whitelisting) with an auction type
+   activated; active prices are implied by a computable ratio (borrow_unsafe) *)
+Definition live_hyp_borrow (b : borrow_in) : bool :=
+  b_found b && negb (b_liquidated b) && b_lend_found b && negb (b_kill b) && b_interest_ok b &&
+  b_white b && (b_dutch b || b_english b).
+
+(* known-finding class C09-F5: every hypothesis of the property holds and the borrow is above its
+   threshold, but the module account of the collateral's pool holds less of the collateral asset
+   than the borrow recorded (the rest is lent out to other borrowers): UpdateLockedBorrows fails at
+   SendCoinsFromModuleToModule, the visit is rolled back, the borrow is not seized - in any block
+   while the pool stays short *)
+Definition kf_C09_5 (b : borrow_in) : bool :=
+  live_hyp_borrow b && borrow_unsafe b && negb (borrow_funds_ok b).
 
 (* liveness hypotheses for a vault at one block: controls off, prices active, liquidation and
    its auction type enabled *)
